@@ -72,6 +72,19 @@ pub struct HostStruct {{ pub keep: u32, {ai} pub gfield: u32 }}
 #[typeshare]
 #[serde(tag = "t", content = "c")]
 pub enum HostTagged {{ V {{ keep: u32, {ai} gvfield: u32 }}, W(u32) }}
+{a}pub mod gmod {{
+    #[typeshare]
+    pub struct InGuardedMod {{ pub x: u32 }}
+    pub mod deeper {{
+        #[typeshare]
+        pub enum InGuardedModDeep {{ A, B }}
+    }}
+}}
+pub mod gmod_inner {{
+    {attrs_text(attrs, inner=True).replace(chr(10), " ")}
+    #[typeshare]
+    pub type InInnerGuardedMod = String;
+}}
 """
 
 
@@ -90,6 +103,11 @@ def presence(res):
         "alias": any(a["id"]["original"] == "GAlias" for a in pd.get("aliases", [])),
         "const": any(c["id"]["original"] == "G_CONST" for c in pd.get("consts", [])),
     }
+    # items WITHOUT a predicate of their own inside an inline module that carries the guard (outer attribute, nested one level deeper,
+    # inner attribute): the rule speaks of files, types, variants and fields - "items without a target_os predicate are always kept"
+    out["in_guarded_mod"] = "InGuardedMod" in structs
+    out["in_guarded_mod_deeper"] = "InGuardedModDeep" in enums
+    out["in_inner_guarded_mod"] = any(a["id"]["original"] == "InInnerGuardedMod" for a in pd.get("aliases", []))
     # two definitions of one name under different guards (the usual per-platform pattern): each is kept or dropped by its OWN guard
     twins = [s_ for s_ in pd.get("structs", []) if s_["id"]["original"] == "GTwin"]
     out["twin"] = any(f["id"]["original"] == "from_guarded" for s_ in twins for f in s_["fields"])
@@ -187,6 +205,11 @@ def run_cases(chk, cases, file_every=1):
                     if keep is not None:
                         judge(chk, own, T, "twin-second-definition", (not T) or "d" in T, kept)
                     events.append({"attrs": own, "targets": T, "level": "twin-second-definition", "kept": kept})
+                    continue
+                if level.startswith("in_"):          # the item itself carries no predicate: TargetOs!Accept(<<>>, T)
+                    if keep is not None:
+                        judge(chk, attrs, T, level.replace("_", "-") + "/item-without-predicate", True, kept)
+                    events.append({"attrs": [], "targets": T, "level": level, "kept": kept})
                     continue
                 if keep is not None:
                     judge(chk, attrs, T, level, keep[bit], kept)
